@@ -443,14 +443,29 @@ func runCheck(repo, mode string, args []string) int {
 	for fe, obls := range perFunc {
 		fe, obls := fe, obls
 		sort.SliceStable(obls, func(i, j int) bool { return obls[i].Pos < obls[j].Pos })
-		for i := 0; i < len(obls); i += 20 {
-			j := i + 20
-			if j > len(obls) {
-				j = len(obls)
+		// vacuity guards go to their own processes with a short per-query budget ("not refutable" is all they need)
+		var proofs, guards []*Obl
+		for _, o := range obls {
+			if o.ExpectSat {
+				guards = append(guards, o)
+			} else {
+				proofs = append(proofs, o)
 			}
-			chunk := obls[i:j]
-			n := i
-			jobs = append(jobs, func() { e.batchFunction(fe, chunk, header, dir, batchMs, n) })
+		}
+		for gi, group := range [][]*Obl{proofs, guards} {
+			ms := batchMs
+			if gi == 1 {
+				ms = 300
+			}
+			for i := 0; i < len(group); i += 20 {
+				j := i + 20
+				if j > len(group) {
+					j = len(group)
+				}
+				chunk := group[i:j]
+				n := i + gi*100000
+				jobs = append(jobs, func() { e.batchFunction(fe, chunk, header, dir, ms, n) })
+			}
 		}
 	}
 	parallel(16, jobs)
